@@ -27,6 +27,7 @@ func init() {
 			ruleC10O6(r)
 			ruleDrainBounds(r, "O7")
 			ruleAlwaysCancels(r, "O8")
+			ruleC10O11(r)
 			ruleNoAliasAfterTruncate(r, "O10", "/iscp", "/wire")
 			ruleCancelFieldsClosed(r, "O9", "/iscp", "/wire", "/transport/", "/transport")
 		},
@@ -549,4 +550,85 @@ func ruleC10O6(r *Run) {
 	if n == 0 {
 		r.Undecided("sends to API-drained channels", "none found")
 	}
+}
+
+// ruleC10O11: Closed is the terminal status of a connection. Every call on the status holder made from package iscp
+// is evaluated from Closed (helper bodies are executed, unknown branches enumerated): none may leave another status
+// behind. A request path that overwrites Closed with Reconnecting makes every later call wait for a reconnect that
+// nobody performs.
+func ruleC10O11(r *Run) {
+	r.Begin("O11", "Closed is absorbing: every call of a connStatus method from package iscp, evaluated from the status Closed, leaves the status Closed", 5)
+	p := r.P
+	fld := r.field("/iscp", "connStatus", "current")
+	holder := r.named("/iscp", "connStatus")
+	closed, ok := p.enumConst("/iscp", "connStatusClosed")
+	if fld == nil || holder == nil || !ok {
+		return
+	}
+	for _, fn := range p.Funcs {
+		if fnPkgPath(fn) != modPath+"/iscp" || fn.Blocks == nil {
+			continue
+		}
+		if fn.Signature.Recv() != nil && namedOf(fn.Signature.Recv().Type()) == holder {
+			continue // the helpers themselves
+		}
+		k := 0
+		allInstrs(fn, func(ins ssa.Instruction) {
+			c, isCall := ins.(*ssa.Call)
+			if !isCall {
+				return
+			}
+			cal := c.Call.StaticCallee()
+			if cal == nil || cal.Signature.Recv() == nil || namedOf(cal.Signature.Recv().Type()) != holder {
+				return
+			}
+			outs, err := stateOutcomes(c, fld, closed)
+			name := fnName(fn)
+			k++
+			key := fmt.Sprintf("%s status call#%d %s", name, k, cal.Name())
+			if err != "" {
+				// helpers that wait (cond.Wait loops) or take non-constant statuses cannot be executed; they do not store
+				if !p.reachesStoreTo(cal, fld, 2) {
+					r.Check(key, true, posOf(p, c), name, "the helper never writes the status")
+					return
+				}
+				r.Undecided(key, err)
+				return
+			}
+			stays := true
+			for _, o := range outs {
+				if o.after != closed {
+					stays = false
+				}
+			}
+			detail := callName(c) + " evaluated from Closed leaves the status Closed"
+			if !stays {
+				detail = callName(c) + " evaluated from Closed leaves another status behind: a closed connection comes back to life as far as every waiting caller can tell"
+			}
+			r.Check(key, stays, posOf(p, c), name, detail)
+		})
+	}
+}
+
+// reachesStoreTo: fn or a static callee (to depth) stores into field f.
+func (p *Prog) reachesStoreTo(fn *ssa.Function, f *types.Var, depth int) bool {
+	if fn == nil || fn.Blocks == nil {
+		return false
+	}
+	found := false
+	withAnon(fn, func(g *ssa.Function) {
+		allInstrs(g, func(ins ssa.Instruction) {
+			if st, ok := ins.(*ssa.Store); ok {
+				if fa, isFA := st.Addr.(*ssa.FieldAddr); isFA && fieldOf(fa.X.Type(), fa.Field) == f {
+					found = true
+				}
+			}
+			if c, ok := ins.(*ssa.Call); ok && depth > 0 && !found {
+				if cf := c.Call.StaticCallee(); cf != nil && p.Analysed(cf) && p.reachesStoreTo(cf, f, depth-1) {
+					found = true
+				}
+			}
+		})
+	})
+	return found
 }
